@@ -211,6 +211,9 @@ Boolean RetrieveCodeFromChunkList(
         Found = False;
         for (pChunk = pCodeChunkList->Chunks;
              pChunk < pCodeChunkList->Chunks + pCodeChunkList->RealLen; pChunk++) {
+            if (!pChunk->Length) {
+                continue; /* empty chunk (e.g. an empty binary file): Start + Length - 1 would wrap */
+            }
             OverlapStart = max(pChunk->Start, Start);
             OverlapEnd   = min(pChunk->Start + pChunk->Length - 1, Start + Count - 1);
             if (OverlapStart <= OverlapEnd) {
